@@ -1,7 +1,8 @@
 (* C10 -- back-to-back packets and padding in a frame are walked by consumed lengths. Pinned statements only. *)
 Require Import GSE.model.Base GSE.model.Types GSE.model.Ext GSE.model.Encap GSE.model.Memory GSE.model.Decap
   GSE.proofs.Tactics GSE.proofs.BaseLemmas GSE.proofs.HeaderLemmas GSE.proofs.EncapSpec GSE.proofs.EncapProps
-  GSE.proofs.DecapBase GSE.proofs.DecapSpec GSE.proofs.DecapProps GSE.proofs.RoundTrip GSE.proofs.FragTrip GSE.proofs.Frames.
+  GSE.proofs.DecapBase GSE.proofs.DecapSpec GSE.proofs.DecapProps GSE.proofs.RoundTrip GSE.proofs.FragTrip GSE.proofs.Frames
+  GSE.proofs.ExtSpec GSE.proofs.ExtTrip GSE.proofs.ExtProps.
 Open Scope N_scope.
 #[local] Opaque pkt_complete pkt_first pkt_end pkt_inter.
 
@@ -45,6 +46,14 @@ Proof.
     rewrite takeN_app_eq by (rewrite lenN_pkt_first, lenN_takeN; lia).
     apply (wf_first crc mgr); auto; rewrite ?lenN_takeN; lia.
 Qed.
+(* encap_ext packets are well framed for every receiver that can read the chain: it knows all the mandatory
+   extensions used (chain_known), or it meets, after extensions it knows, a mandatory id it does not know (the packet
+   is then dropped as a whole: C13). A manager that announces wrong sizes for the ids used is outside this theorem. *)
+Theorem c10_sender_ext_well_framed : forall crc mgr S pdu fid pt lab buf exts S' buf' st, enc_wf S -> label_wf lab -> pt < 65536 ->
+  Forall ext_built exts -> encap_ext crc S pdu fid pt lab buf exts = Ret (S', buf', inl st) ->
+  chain_readable mgr exts pt ->
+  well_framed mgr (takeN (match st with Completed n | Fragmented n _ => n end) buf').
+Proof. exact encap_ext_well_framed. Qed.
 Theorem c10_sender_frag_well_framed : forall mgr pdu ctx buf buf' st, lenN pdu <= 65535 ->
   encap_frag pdu ctx buf = Ret (buf', inl st) ->
   well_framed mgr (takeN (match st with Completed n | Fragmented n _ => n end) buf').
@@ -61,6 +70,7 @@ Theorem c10_never_padding : forall mgr p, well_framed mgr p -> hdr_view (rd16 (t
 Proof. intros mgr p H E. unfold well_framed in H. now rewrite E in H. Qed.
 
 Print Assumptions c10_tail_independent.
+Print Assumptions c10_sender_ext_well_framed.
 Print Assumptions c10_walk.
 Print Assumptions c10_sender_well_framed.
 Print Assumptions c10_sender_frag_well_framed.
